@@ -4,40 +4,40 @@ import json, subprocess
 
 CLAIMED = {
  "C13": dict(engine="envsim", design="4.1",
-   technique="deterministic simulation: seeded multi-client histories on one shared BDDEnv (raw API, BDDSet, formula clients; worlds usize / NamedSymbol / a user symbol type with scripted panics) with handle-drop, alias, re-entrancy, cancellation, mid-operation unwinding, table-growth, sparse-id and allocator faults; invariants I1-I5 after every step, each operation re-run in a fresh environment",
+   technique="deterministic simulation: seeded multi-client histories on one shared BDDEnv (raw API, BDDSet, formula clients; worlds usize / NamedSymbol / a user symbol type with scripted panics) with handle-drop, alias, re-entrancy, cancellation, mid-operation unwinding, table-growth, sparse-id, hash-collision, outside-operand (dropped at once: address reuse), clone-object (operation in a Clone of the environment) and allocator faults; invariants I1-I5 after every step, each operation re-run in a fresh environment",
    text="Seeded exploration of operation histories (interleaved raw-API, BDDSet and formula clients on one environment, with cancelled and re-entrant fp transformers, foreign-node lookups, handle drops and allocator churn). After every step all retained handles are re-walked, every reachable node is compared by address with the environment table, and the step is repeated in a brand-new environment and compared structurally. Exploration level: samples histories, does not enumerate them.",
-   note="Trusted: the truth-table walker and the plan executor of /verif/sim. Bounds: <= 6 variables (1 run in 8: 7-10 variables, judged structurally), <= 60 steps, <= 4 clients, counting lists <= 5. Operands are always diagrams interned in the shared environment; only unwindings a caller can cause through the public API are injected."),
+   note="Trusted: the truth-table walker and the plan executor of /verif/sim. Bounds: <= 6 variables (1 run in 8: 7-10 variables, judged structurally), <= 60 steps, <= 4 clients, counting lists <= 5. In a quarter of the runs operands may live outside the environment (for operations that never look an operand up); from the first such step on the reachability part of I4 and the duplicates / node_list comparisons are not judged in that run. Only unwindings a caller can cause through the public API are injected."),
  "C02": dict(engine="envsim", design="4.3",
    technique="deterministic simulation: the same seeded histories as construction routes (incl. operands from a second environment or from no environment, and retries after injected mid-operation panics); every handed-out diagram compared with an independently built canonical diagram of its own function (K1-K3) and of the function a lock-step truth-table model expects (K4), across environments",
    text="Every diagram produced along seeded histories (shared environment, per-step fresh environments, From-converted diagrams) is checked to be ordered and reduced, to be `==` (and hash-equal) to a reduced ordered diagram built from its truth table with plain BDD::Choice values and no environment, and all pairs of live handles satisfy `==` iff same function. Exploration level; the functions dimension is sampled by what the histories build (reported as distinct states).",
    note="Trusted: canon64 (Shannon expansion on bitsets), the walker and the reference semantics of the operations on 64-bit truth tables (K4; model / retain / cancelled fp have no single expected function and are judged by K1-K3 only). One fixed variable order per world. <= 6 variables."),
  "C19": dict(engine="envsim", design="4.2",
-   technique="deterministic simulation: seeded BDDSet client histories (incl. self-aliased operands and early drops) interleaved with raw-API traffic on a shared environment, lock-step against a BTreeSet reference model",
+   technique="deterministic simulation: seeded BDDSet client histories (incl. self-aliased operands, early drops, BDDSet::clone with diverging use, queries while the caller holds a shared borrow of the set's cell, universes up to 64 bits, marathon runs beyond 2^20 cached operations) interleaved with raw-API traffic on a shared environment, lock-step against a BTreeSet reference model",
    text="Seeded histories of insert/union/intersect/complement/empty/universe/contains on up to four sets sharing one environment with raw-API clients; after every step membership of every b-bit integer is read off the set's diagram and compared with a BTreeSet that underwent the same operations; queries must answer like the model and leave every set unchanged; self-aliased operands must not panic. Exploration level.",
-   note="Trusted: the BTreeSet model and the membership walker (does not call contains). b <= 4 bits mostly, up to 8 bits in 1 run of 8; <= 4 live sets, <= 60 steps; a third of the runs are driven by set clients alone and hold no handle to the leaves."),
+   note="Trusted: the BTreeSet model and the membership walker (does not call contains). b <= 4 bits mostly, up to 8 bits in 1 run of 8, 16..64 bits (boundary elements, finite / co-finite model) in some; <= 4 live sets, <= 60 steps; a third of the runs are driven by set clients alone and hold no handle to the leaves."),
 }
 
 CLAIMED["C12"] = dict(engine="iosim", design="4.5",
-   technique="deterministic simulation with fault injection on the input/output stream seams: stored-input corruption (bit flips, drops, splices, bad UTF-8, extreme numerals) delivered through chunking/EINTR/hard-error read plans, DOT output into short-write/error write plans; oracle: no panic, injected errors surface as Err",
+   technique="deterministic simulation with fault injection on the input/output stream seams: stored-input corruption (bit flips, drops, splices, bad UTF-8, extreme numerals) delivered through chunking/EINTR/hard-error read plans, DOT output into short-write/error write plans; plus syntax definitions installed through ParsedFormula::define for referenced names and a second evaluation; oracle: no panic, injected errors surface as Err",
    text="Seeded stored inputs (generated formulas, repository texts, token soups, random bytes, handcrafted edge texts) with 0-4 storage faults and optional corrupted ordering files are delivered through fault-injecting readers to tokenize / ParsedFormula::new; then eval under a tick budget, model, retain, the CLI's table walk and both DOT exporters (into a fault-injecting writer) run under catch_unwind. Any panic other than the budget marker is a violation, reported with location; injected hard I/O errors must come back as Err. Exploration level.",
-   note="Build: optimised with overflow-checks (= the dev profile's arithmetic, in which the pinned test suite runs). Inputs above the conservative nesting bound 200 or exhausting the tick budget are executed but unjudged. Output-side failure of stdout is outside the property.")
+   note="Build: optimised with overflow-checks (= the dev profile's arithmetic, in which the pinned test suite runs). Inputs above the conservative nesting bound 200 or exhausting the tick budget are executed but unjudged, as are panics during evaluation of inputs whose fixed-point iteration provably cycles (the model iterates the parsed tree itself). ReferenceContents::BDD definitions are not installed (the source documents them as unsupported inside fixed points; the property quantifies over byte strings and options). Output-side failure of stdout is outside the property.")
 
 CLAIMED["C18"] = dict(engine="rgsim", design="4.8",
-   technique="deterministic simulation of the real random_graph_gen process with its RNG behind a seeded seam (guarded hook): seeded requests incl. infeasible ones, replayed and re-run with --dot toggled; --convert/--colors judged by brute force",
+   technique="deterministic simulation of the real random_graph_gen process with its RNG behind a seeded seam (guarded hook): seeded requests incl. infeasible ones, replayed (also started in a removed working directory and with --convert reading through a pipe) and re-run with --dot toggled; --convert/--colors judged by brute force",
    text="The real binary is spawned per run with a seeded RNG stream replacing thread_rng (guarded hook), over seeded requests (V, E, -u, --complete, --dot, -o; half feasible-interior, a quarter at the maximum, a quarter infeasible or incomplete) and --convert/--colors inputs. Oracles: exactly E distinct loop-free edges over v0..v(V-1), no pair in both orientations under -u, refusal with message and no output for infeasible requests, byte-identical replay, --dot equals the plain edge list, --convert equals the merged input list, clique-cover iff k-colourable by brute force. Exploration level over requests x RNG streams.",
    note="Trusted: the edge-list parsers and brute-force colouring of /verif/sim. --colors is judged on loop-free inputs with <= 5 vertices and k <= 3. Variety of the generator's output is measured (distinct edge sets) but not judged.")
 
 CLAIMED["C14"] = dict(engine="dotsim", design="4.7",
-   technique="deterministic simulation with fault injection on the Write seam and on allocation addresses: diagrams from seeded environment histories exported through short-write/EINTR/error write plans, read back with an independent DOT reader, compared across histories",
+   technique="deterministic simulation with fault injection on the Write seam and on allocation addresses: diagrams from seeded environment histories (incl. environments cloned part-way) exported through short-write/EINTR/error write plans, read back with an independent DOT reader, compared across histories",
    text="Per run a seeded function is built inside an environment with seeded prior history and allocator churn (node ids are allocation addresses), exported with filters Any/True/False and through a fault-injecting writer, read back by an independent DOT reader and evaluated under all assignments; the same function built through another route in another environment must give an isomorphic graph; filtered exports must equal the unfiltered one minus the opposite leaf and its edges; generated formulas' syntax trees are exported and read back as terms with shared sub-terms. Exploration level; the writer-fault and address dimensions are the simulated part, diagrams/trees are sampled.",
    note="Trusted: /verif/sim's DOT reader (one statement per line, escape_default labels) and truth-table walker. Only diagrams interned in one environment are exported (the exporter identifies nodes by allocation on purpose). <= 6 variables.")
 
 CLAIMED["C10"] = dict(engine="clisim+iosim", design="4.4",
-   technique="deterministic simulation of the real rsbdd process (simulator owns argv, stdin chunking, files, ordering file, tick budget) against a truth-table reference model, with variant invocations over input channel and -b N; plus read-fault plans on the library's BufRead seam (T9)",
+   technique="deterministic simulation of the real rsbdd process (simulator owns argv, stdin chunking, files, ordering file, tick budget) against a truth-table reference model, with variant invocations over input channel, -b N and the way arguments / the ordering file are handed over (relative paths, @argfile, reversed order, ordering through a pipe, removed working directory); plus read-fault plans on the library's BufRead seam (T9)",
    text="Each run prints a seeded formula (incl. wide read-once chains over up to 80 variables) through the real binary under a seeded configuration (channel, filter spelling, -t -v -m -r -b N, ordering file kind) and judges header, disjointness, row values, coverage per filter, -v lines and -m against an independent truth-table evaluator of the generated AST; 1-3 variant invocations (other channel, other -b N) must print byte-identical stdout; in process the same text through chunking/EINTR/hard-error read plans must give identical tokens, tree, variable tables and diagram. Exploration level: T7-T9 decide the channel/fault dimension proper, T1-T6 are as strong as the sampled formulas.",
    note="Trusted: model::fast (AST printer + evaluator), model::table (stdout reader). The clock read by -b is observed, not controlled (its value reaches only stderr). <= 9 names for ordinary formulas; read-once chains for wide tables.")
 CLAIMED["C11"] = dict(engine="clisim", design="4.6",
-   technique="deterministic simulation of the real rsbdd process over ordering-file configurations (permutation, subset, superset, duplicates, junk) incl. the -r -> file -> -o round trip, against a by-name truth-table model; API orderings with id gaps in process",
+   technique="deterministic simulation of the real rsbdd process over ordering-file configurations (permutation, subset, superset, duplicates, junk) incl. the -r -> file -> -o round trip and other ways of handing the file over (relative path, @argfile, through a pipe, removed working directory), against a by-name truth-table model; API orderings with id gaps in process",
    text="Each run gives a seeded formula an ordering file of a seeded kind and judges the printed table by variable NAME against the reference evaluator and the header against the file's order; some runs repeat without -o and compare functions by name, some export the order with -r, feed it back with -o and require byte-identical output, some check ParsedFormula::new with an API ordering of distinct non-contiguous ids in process (function by name, free_vars/to_free_index, vars). Exploration level: the ordering/round-trip configuration is the simulated dimension, formulas are sampled.",
    note="Trusted: model::fast, model::table. <= 9 names.")
 
